@@ -53,7 +53,7 @@ def regen(ctx):
 
 def _start_thread_runs(ctx, strength):
     """Fresh process per thread count, started in the background (JIT dominates: ~80 s each)."""
-    fams = ["laplace_sl", "potential"] if strength == "quick" else ["laplace_sl", "identity", "potential",
+    fams = ["laplace_sl_only", "potential"] if strength == "quick" else ["laplace_sl", "identity", "potential",
                                                                     "hypersingular", "maxwell"]
     counts = QUICK_THREADS if strength == "quick" else THOROUGH_THREADS
     res = {}
